@@ -55,6 +55,8 @@ def wellTyped (w : World) : Ty → Obj → Bool
   | .wrap _ t, x => wellTyped w t x
   | .cls c, .inst c' fs => c == c' && wellTypedF w (w.fields c) fs
   | .td c, .dict kvs => wellTypedTD w (w.fields c) kvs
+  | .union _ hn, .none => hn
+  | .union cs _, .inst c fs => cs.contains c && wellTypedF w (w.fields c) fs
   | _, _ => false
 termination_by t x => (sizeOf x, sizeOf t)
 /-- by run-time class (`Any`-typed and untyped positions) -/
@@ -151,6 +153,7 @@ mutual
 def Ty.refs : Ty → List Nat
   | .cls c => [c]
   | .td c => [c]
+  | .union cs _ => cs
   | .coll _ t => t.refs
   | .opt t => t.refs
   | .wrap _ t => t.refs
@@ -256,6 +259,8 @@ inductive EncAs (w : World) (cfg : Cfg) : Ty → Obj → Obj → Prop
   /-- TypedDicts: a dict with the same keys, values encoded by the declared key types (Converter) -/
   | tdG {c kvs out} : cfg.gen = true → EncTD w cfg (w.fields c) kvs out → EncAs w cfg (.td c) (.dict kvs) (.dict out)
   | tdB {c kvs out} : cfg.gen = false → EncRtKV w cfg kvs out → EncAs w cfg (.td c) (.dict kvs) (.dict (mkDict out))
+  /-- unions of classes (and `None`): by run-time class -/
+  | union {cs hn x y} : EncRt w cfg x y → EncAs w cfg (.union cs hn) x y
 
 /-- by run-time class -/
 inductive EncRt (w : World) (cfg : Cfg) : Obj → Obj → Prop
